@@ -223,8 +223,8 @@ def run(ctx):
     ok = all(sp.simplify(sp.powsimp(sp.expand_log(sp.log(cl[i] / want[i]), force=True), force=True)) == 0 for i in (1, 2)) and sp.simplify(cl[0] - V) == 0
     ctx.check("R28.2", key, bool(ok), f"classic a_1 = {sp.simplify(cl[1])}; a_0 = {cl[0]}", ini)
     fl = [st for st in walk_no_nested(ini.node) if isinstance(st, ast.Assign) and src(st.targets[0]) == "self._fluc"]
-    opn = [src(st.targets[0]) for st in walk_no_nested(ini.node) if isinstance(st, ast.Assign) and "vol0 + vol1" in src(st.value).replace("*", " * ").replace("  ", " ") or
-           (isinstance(st, ast.Assign) and src(st.value).replace(" ", "").startswith("vol0+vol1*"))]
+    opn = [src(st.targets[0]) for st in walk_no_nested(ini.node) if isinstance(st, ast.Assign) and isinstance(st.value, ast.BinOp) and isinstance(st.value.op, ast.Add)
+           and "vol0" in src(st.value) and "vol1" in src(st.value)]
     ctx.check("R28.2", f"{ini.key}::fluctuation amplitude = sqrt(integral of amplitude^2)", len(fl) == 1 and bool(opn) and
               src(fl[0].value).replace(" ", "") == f"{opn[-1]}.power(2).integrate().sqrt()", src(fl[0].value) if fl else None, ini)
 
